@@ -21,12 +21,21 @@ ASSUMPTIONS = [
     "covered by the end-to-end oracle (full USBDevice driven over UTMI), not by a theorem",
     "zero-length packet on the handler's tx stream = ONE cycle of valid & last & ~first (the convention USBDataPacketGenerator "
     "implements: it never raises ready for such a beat, so a ZLP that is held until ready is transmitted again and again)",
-    "latency between start and the answer is implementation-defined (bk_lat / ds_lat) and not part of the property",
-    "collections (coll_okb): types and indexes < 256, at most 255 indexes per type, bytes < 256, ROM image < 64 KiB; "
-    "a language descriptor (type 3 index 0) is always present because DeviceDescriptorCollection adds one",
+    "latency between start and the answer is implementation-defined (bk_lat: 1/2/4 cycles, ds_lat: 0/1/2) and not part of the property",
+    "collections (coll_okb): types and indexes < 256, at most 255 indexes per type, bytes < 256, ROM image < 64 KiB; for the "
+    "distributed handler additionally every descriptor non-empty and shorter than 2048 bytes (dist_okb; a ConstantStreamGenerator "
+    "of no data does not elaborate); a language descriptor (type 3 index 0) is always present because DeviceDescriptorCollection adds one",
     "ROM layout: Python generate_rom_content is compared with the Gallina rom_of / max_desc_len / max_type / index_map on random "
-    "collections on every run (differential test); the layout lemmas are proved about rom_of",
-    "runtime (callable) descriptors of GetDescriptorHandlerDistributed and GetDescriptorHandlerMux are not modelled",
+    "collections on every run (differential test, reported as no-failing-input-found when only the layout differs); the layout "
+    "lemmas are proved about rom_of",
+    "netlist ties: block handler -- no environment assumption, all histories over the explicit request alphabet; distributed handler "
+    "-- histories that respect ds_env (model-state form of the assumption above: one generator busy at a time, its descriptor selected, "
+    "start low, start_position/length limit held while it streams; legal offsets), which every s_env-legal history does "
+    "(second conjunct of C09_distributed_handler). Without it the product of the generators' state spaces is out of reach",
+    "the distributed-handler model is the behaviour WITH findings/C09-dist-zlp.diff; on the unchanged tree the check reports the "
+    "violation (ob_dst_* counterexample confirmed on the simulator; also the packet-level oracle and the end-to-end oracle)",
+    "runtime (callable) descriptors of GetDescriptorHandlerDistributed and GetDescriptorHandlerMux are not modelled "
+    "(a separate defect of that configuration is recorded in findings/C09-mux-duplicate-language.json)",
     "tie configurations: see obligation_list",
 ]
 
@@ -43,6 +52,7 @@ def _blob(n, seed):
 TINY_A = [(1, 0, [5, 1, 7, 8, 9]), LANG, (3, 2, [8, 3, 1, 2, 3, 4, 5, 6])]                 # sparse indexes -> index map
 TINY_B = [(1, 0, _blob(10, 1)), (2, 0, _blob(16, 2)), LANG, (3, 1, _blob(8, 3))]            # consecutive indexes
 TINY_C = [(2, 1, _blob(3, 4)), (2, 5, _blob(12, 5)), LANG, (6, 0, _blob(1, 6))]             # sparse, type gap, length 1
+TINY_D = [(1, 0, _blob(6, 7)), LANG]                                                        # smallest direct-index collection
 
 
 def repo_test_collection():
@@ -119,6 +129,14 @@ def mk(name, kind, triples, mps, big):
     t.params = dict(kind=kind, triples=triples, mps=mps)
     t.big = big
     t.coll = coq_coll(triples)
+    orig = t.simulate
+
+    def simulate(traces, _orig=orig, _t=t):
+        r = _orig(traces)
+        if len(traces) > 1:
+            _t.last_sim = (traces, r)       # kept for the specification oracles (correspondence hook)
+        return r
+    t.simulate = simulate
     return t
 
 
@@ -132,18 +150,20 @@ def targets(tier):
     import random
     r = random.Random(909)          # configuration choice is fixed; the traces use the run's rng
     ts = [mk("blk_tinyA_mps4", "block", TINY_A, 4, False),
-          mk("blk_tinyB_mps8", "block", TINY_B, 8, False)]
+          mk("blk_tinyD_mps4", "block", TINY_D, 4, False)]
     if tier != "quick":
+        ts.append(mk("blk_tinyB_mps8", "block", TINY_B, 8, False))
         ts.append(mk("blk_tinyC_mps4", "block", TINY_C, 4, False))
     ts.append(mk("dst_tinyA_mps4", "dist", TINY_A, 4, False))
     if tier != "quick":
+        ts.append(mk("dst_tinyD_mps4", "dist", TINY_D, 4, False))
         ts.append(mk("dst_tinyB_mps8", "dist", TINY_B, 8, False))
         ts.append(mk("dst_tinyC_mps4", "dist", TINY_C, 4, False))
     ts.append(mk("blk_repo_mps64", "block", repo_test_collection(), 64, True))
     ts.append(mk("dst_repo_mps64", "dist", repo_test_collection(), 64, True))
-    nrand = 2 if tier == "quick" else 8
+    nrand = 0 if tier == "quick" else 8
     for k in range(nrand):
-        mps = [8, 16, 32, 64][k % 4]
+        mps = [16, 8, 32, 64][k % 4]
         tri = random_triples(r, mps)
         ts.append(mk(f"blk_rand{k}_mps{mps}", "block", tri, mps, True))
         ts.append(mk(f"dst_rand{k}_mps{mps}", "dist", tri, mps, True))
@@ -237,7 +257,7 @@ def traces(target, rng, tier):
     out = []
     for k in range(n):
         adversarial = (k % 5 == 4)
-        out.append(gen_trace(rng, p["triples"], p["mps"], rng.choice([2, 4, 6]), adversarial))
+        out.append(gen_trace(rng, p["triples"], p["mps"], rng.choice([2, 3, 4] if tier == "quick" else [2, 4, 6]), adversarial))
     target.legal = [k % 5 != 4 for k in range(n)]
     _cache[key] = out
     return out
@@ -251,35 +271,31 @@ def pack_in(value, wlen, start, sp, ready):
 
 
 def alphabet_for(triples, mps, tier):
-    """Explicit input alphabet of the lock-step ties: every present descriptor, absent index / absent type / type beyond
-    the table, wLength around the packet size and the descriptor lengths, all packet-aligned offsets, plus misaligned and
-    out-of-range ones; each with start and ready both ways."""
+    """Explicit input alphabet of the lock-step ties.  Requests (value, wLength, start_position): every present descriptor
+    read whole at every packet-aligned offset up to and including its end (the ZLP offset), and with wLength one above the
+    packet size; an absent index, an absent type inside the table, a type beyond the table; in the thorough tier also
+    short/exact wLength, misaligned and out-of-range offsets and wLength = 0.  Every request with start and ready both ways."""
     pres = _present(triples)
     maxt = max(t for t, _ in pres)
-    values = [(t << 8) | i for t, i in pres]
+    reqs = []
+    for (t, i), d in sorted(pres.items()):
+        v = (t << 8) | i; L = len(d)
+        for sp in range(0, L + 1, mps):
+            reqs.append((v, 0xFFFF, sp))
+        reqs.append((v, mps + 1, 0)); reqs.append((v, mps + 1, mps))
+        if tier != "quick":
+            for w in sorted({1, mps - 1, mps, L - 1, L, L + 1}):
+                if w >= 1: reqs.append((v, w, 0))
+            reqs += [(v, 0xFFFF, 1), (v, 0xFFFF, 0x7FF), (v, mps, mps), (v, 0, 0), (v, 2 * mps, mps)]
     t0, i0 = sorted(pres)[0]
-    absent = [(t0 << 8) | ((i0 + 1) & 0xFF)]
+    absent = [(t0 << 8) | ((i0 + 1) & 0xFF), ((maxt + 1) & 0xFF) << 8]
     gap = [t for t in range(maxt + 1) if t not in {t for t, _ in pres}]
     if gap: absent.append(gap[0] << 8)
-    absent.append(((maxt + 1) & 0xFF) << 8)
-    absent.append(0xFF00 | i0)
-    lens = sorted({len(d) for d in pres.values()})
-    wlens = sorted({1, mps - 1, mps, mps + 1, 2 * mps, 0xFFFF} | set(lens) | {L + 1 for L in lens})
-    sps = sorted({0, mps, 2 * mps, 3 * mps, 1, 0x7FF})
-    if tier == "quick":
-        # the quick closure has to stay within ~10^5 netlist steps: one absent index, one type beyond the table,
-        # a wLength just above the packet size and an unbounded one, the packet-aligned offsets
-        absent = [absent[0], absent[-2]]
-        wlens = [mps + 1, 0xFFFF]
-        sps = [0, mps, 2 * mps]
-    words = []
-    for v in values + absent:
-        for w in wlens:
-            for s in sps:
-                for st in (0, 1):
-                    for r in (0, 1):
-                        words.append(pack_in(v, w, st, s, r))
-    return words
+    if tier != "quick": absent.append(0xFF00 | i0)
+    for v in absent:
+        reqs.append((v, 0xFFFF, 0))
+    reqs = sorted(set(reqs))
+    return [pack_in(v, w, st, s, r) for (v, w, s) in reqs for st in (0, 1) for r in (0, 1)]
 
 
 def obligations(targets, tier):
@@ -299,9 +315,24 @@ def obligations(targets, tier):
                 f"ob_{t.name}", t, St="bk_state", mstep=f"bk_step {cfg}", enc=f"bk_enc {cfg}", dec=f"bk_dec {cfg}",
                 wf=f"bk_wf {cfg}", dec_enc=f"bk_dec_enc {cfg}", wf_step=f"bk_wf_step {cfg}", m0="bk_init",
                 wf_m0="apply bk_wf_init.", alphabet=core.nlist(alpha), fuel=100000,
-                describe=f"{t.name}: netlist == block handler model on all input histories over {len(alpha)} input words "
-                         f"(every descriptor, absent index/type, wLength around packet size and descriptor lengths, "
-                         f"aligned and misaligned offsets, start/ready both ways)"))
+                describe=f"{t.name}: netlist == block handler model on ALL input histories over {len(alpha)} input words "
+                         f"(no environment assumption; see alphabet_for)"))
+        else:
+            gens = f"(dist_gens {t.coll})"; mps = p["mps"]
+            if t.big:
+                obs.append(tie.corr(f"corr_{t.name}", t, mstep=f"ds_step {gens} {mps}", m0=f"ds_init {gens}",
+                                    describe=f"{t.name}: distributed handler model vs simulator, {len(p['triples'])} descriptors, "
+                                             f"max packet {mps}, legal and adversarial request sequences"))
+                continue
+            alpha = alphabet_for(p["triples"], mps, tier)
+            t.alpha_size = len(alpha)
+            obs.append(tie_explicit.rlock_alpha(
+                f"ob_{t.name}", t, St="ds_state", mstep=f"ds_step {gens} {mps}", enc=f"ds_enc {gens}", dec=f"ds_dec {gens}",
+                wf=f"ds_wf {gens}", dec_enc=f"ds_dec_enc {gens}", wf_step=f"ds_wf_step {gens} {mps}", m0=f"ds_init {gens}",
+                wf_m0="apply ds_wf_init; vm_compute; reflexivity.", alphabet=core.nlist(alpha), fuel=100000,
+                env=f"ds_env {gens} {mps}",
+                describe=f"{t.name}: netlist == distributed handler model on all input histories over {len(alpha)} input words "
+                         f"that respect ds_env (one request at a time, inputs held while it is answered, legal offsets)"))
     return obs
 
 
@@ -311,7 +342,6 @@ def tie_theorems(targets, tier):
         if t.big: continue
         p = t.params
         if p["kind"] == "block":
-            cfg = f"(block_cfg {t.coll} {p['mps']})"
             spec = f"(s_step (resp_of {t.coll} {p['mps']}) (bk_lat {t.coll}))"
             s += f"""
 Theorem C09_{t.name} : forall tr, Forall (fun i => In i ob_{t.name}.alpha) tr ->
@@ -319,7 +349,20 @@ Theorem C09_{t.name} : forall tr, Forall (fun i => In i ob_{t.name}.alpha) tr ->
   run {t.modname}.step {t.modname}.init tr = run {spec} SIdle tr.
 Proof.
   intros tr H HE. rewrite (ob_{t.name}_T.tie tr H (env_ok_true _ _ _ _)).
-  apply block_refines; [vm_compute; reflexivity | vm_compute; split; discriminate | exact HE].
+  apply block_refines; [vm_compute; reflexivity | lia | exact HE].
+Qed.
+"""
+        else:
+            spec = f"(s_step (resp_of {t.coll} {p['mps']}) (ds_lat {t.coll}))"
+            s += f"""
+Theorem C09_{t.name} : forall tr, Forall (fun i => In i ob_{t.name}.alpha) tr ->
+  env_ok sstate {spec} (s_env (req_legal {t.coll})) SIdle tr = true ->
+  run {t.modname}.step {t.modname}.init tr = run {spec} SIdle tr.
+Proof.
+  intros tr H HE.
+  destruct (dist_refines {t.coll} {p['mps']} ltac:(vm_compute; reflexivity) ltac:(vm_compute; reflexivity)
+              ltac:(lia) tr HE) as [Hrun Henv].
+  rewrite (ob_{t.name}_T.tie tr H Henv). exact Hrun.
 Qed.
 """
     return s
@@ -329,6 +372,242 @@ def tie_theorem_names(targets, tier):
     return [f"C09_{t.name}" for t in targets if not t.big]
 
 
-LEVEL_TEXT = "TODO"
-LEVEL_NOTE = "TODO"
-TECHNIQUE = "TODO"
+# ------------------------------------------------------------------------------------------------------------
+# runtime oracles evaluated on the real code (specification, not model): ROM layout, packet-level and cycle-level
+# specification over the simulator traces, and the whole device driven by a host over UTMI
+# ------------------------------------------------------------------------------------------------------------
+def _coq_pkts(pkts):
+    return "[" + "; ".join("[" + "; ".join(str(b) for b in p) + "]" for p in pkts) + "]"
+
+
+def rom_layout_check(tier, rng, bdir, cov):
+    """Python generate_rom_content vs the Gallina rom_of / max_desc_len / max_type / index_map, byte for byte."""
+    from luna.gateware.usb.usb2.descriptor import GetDescriptorHandlerBlock
+    n = 32 if tier == "quick" else 120
+    colls = [TINY_A, TINY_B, TINY_C, repo_test_collection()]
+    while len(colls) < n:
+        colls.append(random_triples(rng, maxlen=rng.choice([40, 140, 300])))
+    rows = []
+    for tri in colls:
+        h = GetDescriptorHandlerBlock(collection_of(tri), max_packet_length=64)
+        rom, maxlen, maxtype, imap = h.generate_rom_content()
+        # what the collection object iterates over is what the handler sees (it adds a language descriptor if missing)
+        seen = [(int(t), int(i), list(bytes(raw))) for t, i, raw in collection_of(tri)]
+        rows.append((seen, [int(x) for x in rom], int(maxlen), int(maxtype), [(int(k), int(v)) for k, v in imap.items()]))
+    defs = ""
+    qs = []
+    for k, (seen, rom, maxlen, maxtype, imap) in enumerate(rows):
+        defs += (f"Definition c{k} := coll_of_triples {coq_triples(seen)}.\n"
+                 f"Definition ok{k} : bool := list_eqb (rom_of c{k}) {core.nlist(rom)} && (max_desc_len c{k} =? {maxlen}) && "
+                 f"(max_type c{k} =? {maxtype}) && list_eqb (map fst (index_map c{k})) {core.nlist([a for a, _ in imap])} && "
+                 f"list_eqb (map snd (index_map c{k})) {core.nlist([b for _, b in imap])} && coll_okb c{k}.\n")
+    defs += "Definition oks : list bool := [" + "; ".join(f"ok{k}" for k in range(len(rows))) + "].\n"
+    hdr = tie.HEADER + TIE_IMPORTS
+    res = core.coq_eval(bdir, "RomLayout_C09", hdr, defs, [("bad", "map (fun b : bool => if b then 0 else 1) oks")])
+    bad = core.parse_nums(res["bad"])
+    cov["correspondence"].append(dict(obligation="rom_layout", target="GetDescriptorHandlerBlock.generate_rom_content",
+                                      traces=len(rows), cycles=sum(len(r[1]) for r in rows),
+                                      describe=f"Python generate_rom_content == Gallina rom_of/max_desc_len/max_type/index_map on "
+                                               f"{len(rows)} collections (fixed + random: sparse types/indexes, lengths around multiples "
+                                               f"of 8/16/32/64), ROM words compared one by one; coll_okb holds for each"))
+    for k, b in enumerate(bad):
+        if b:
+            seen, rom, maxlen, maxtype, imap = rows[k]
+            return dict(property=PID, obligation="rom_layout", target="generate_rom_content", nofail=True,
+                        reason="the ROM image (or max length / max type / index map) that Python's generate_rom_content builds differs from "
+                               "the Gallina re-implementation rom_of: theorem C09_block_handler no longer speaks about the ROM the gateware "
+                               "uses (the netlist ties, correspondence and oracles that ran before this did not find a behavioural difference)",
+                        inputs=[dict(descriptors=seen)], outputs=[dict(rom=rom, max_len=maxlen, max_type=maxtype, index_map=imap)],
+                        how="generate_rom_content of /repo evaluated on a descriptor collection")
+    return None
+
+
+def spec_oracles(tier, rng, bdir, cov):
+    """The specification itself over the simulator traces of every target (legal traces only): cycle-level s_step, and the
+    packet-level reading (latency-independent): packets/stalls seen on the tx stream == respond for each start strobe."""
+    ts = [t for t in targets(tier) if getattr(t, "last_sim", None)]
+    defs = ""; qs = []; meta = []
+    for t in ts:
+        trs, outs = t.last_sim
+        legal = [k for k in range(len(trs)) if t.legal[k]]
+        tin = [[t.pack_in(c) for c in trs[k]] for k in legal]
+        tout = [[t.pack_out(o) for o in outs[k]] for k in legal]
+        p = t.params; lat = "bk_lat" if p["kind"] == "block" else "ds_lat"
+        defs += (f"Definition co_{t.name} := {t.coll}.\n"
+                 f"Definition in_{t.name} : list (list N) := [" + ";\n ".join(core.nlist(x) for x in tin) + "].\n" +
+                 f"Definition out_{t.name} : list (list N) := [" + ";\n ".join(core.nlist(x) for x in tout) + "].\n")
+        qs.append((f"ev_{t.name}", f"map (fun p => events_code co_{t.name} {p['mps']} (fst p) (snd p)) (combine in_{t.name} out_{t.name})"))
+        qs.append((f"cy_{t.name}", f"map (fun p => spec_check (resp_of co_{t.name} {p['mps']}) ({lat} co_{t.name}) (req_legal co_{t.name}) "
+                                   f"0 SIdle (fst p) (snd p)) (combine in_{t.name} out_{t.name})"))
+        meta.append((t, legal))
+    if not ts:
+        return None
+    hdr = tie.HEADER + TIE_IMPORTS
+    res = core.coq_eval(bdir, "Oracle_C09", hdr, defs, qs)
+    for t, legal in meta:
+        trs, outs = t.last_sim
+        ev = core.parse_nums(res[f"ev_{t.name}"]); cy = core.parse_nums(res[f"cy_{t.name}"])
+        cov["correspondence"].append(dict(obligation=f"oracle_{t.name}", target=t.name, traces=len(legal),
+                                          cycles=sum(len(trs[k]) for k in legal),
+                                          describe="specification oracle on simulator traces: (a) packets/stalls on the tx stream == "
+                                                   "respond(value, wLength, start_position) for every start strobe; (b) every cycle == "
+                                                   "the specification machine s_step"))
+        for j, k in enumerate(legal):
+            if ev[j] or cy[j]:
+                n = (cy[j] if cy[j] else len(trs[k]))
+                return dict(property=PID, obligation=f"oracle_{t.name}", target=t.name, describe=t.name, confirmed_on_pysim=True,
+                            reason=("the packets/stalls the handler put on its tx stream differ from the specified answer" if ev[j] else
+                                    "the handler's outputs differ from the specification machine") +
+                                   (f" (first differing cycle {cy[j] - 1})" if cy[j] else ""),
+                            inputs=trs[k][:n], outputs=outs[k][:n], failing_cycle=(cy[j] - 1) if cy[j] else None,
+                            how="specification (Model/DescSpec.v: respond / events / s_step) evaluated over a simulator trace of /repo")
+    return None
+
+
+E2E = [(1, 0, _blob(18, 11)), (2, 0, _blob(64, 12)), LANG, (3, 1, _blob(128, 13)), (0x21, 0, _blob(130, 14)),
+       (0x22, 0, _blob(192, 15)), (0x22, 2, _blob(70, 16)), (0x22, 5, _blob(9, 17))]
+
+
+def e2e_requests(tier, rng):
+    pres = _present(E2E)
+    reqs = [((0x22 << 8) | 0, 1024), ((2 << 8) | 0, 255), ((3 << 8) | 1, 128), ((0x21 << 8) | 0, 100), ((0x22 << 8) | 1, 64)]
+    if tier != "quick":
+        for (t, i), d in pres.items():
+            for w in (8, 64, len(d), len(d) + 1, 1000):
+                reqs.append(((t << 8) | i, w))
+        reqs += [((5 << 8) | 0, 18), ((0x30 << 8) | 0, 64)]
+    return reqs
+
+
+def e2e_run(avoid_blockram, reqs):
+    """Drive a full USBDevice (standard control endpoint) over UTMI with LUNA's own host-side helpers; for every request
+    return the data packets received and whether the data stage was STALLed (or the exception that ended it)."""
+    import unittest
+    from luna.gateware.test import usb_domain_test_case
+    from luna.gateware.test.usb2 import USBDeviceTest
+    from luna.gateware.usb.usb2 import USBPacketID
+    from luna.gateware.usb.usb2.device import USBDevice
+    results = []
+
+    class C09EndToEnd(USBDeviceTest):
+        FRAGMENT_UNDER_TEST = USBDevice
+        FRAGMENT_ARGUMENTS = {'handle_clocking': False}
+
+        def initialize_signals(self):
+            yield self.utmi.line_state.eq(0b01)
+            yield self.dut.connect.eq(1)
+            yield self.utmi.tx_ready.eq(1)
+
+        def provision_dut(self, dut):
+            dut.add_standard_control_endpoint(collection_of(E2E), avoid_blockram=avoid_blockram)
+
+        def read_stage(self, value, wlen):
+            yield from self.setup_transaction(0x80, 6, value, 0, wlen)
+            yield from self.control_interphase_delay()
+            pkts = []; got = 0; naks = 0
+            while True:
+                pid, packet = yield from self.in_transaction(endpoint=0)
+                if pid == USBPacketID.NAK:
+                    naks += 1
+                    if naks > 50: raise RuntimeError("device keeps NAKing the data stage")
+                    continue
+                if pid == USBPacketID.STALL:
+                    return pkts, True
+                pkts.append(list(packet)); got += len(packet)
+                if len(packet) < 64 or got >= wlen:
+                    break
+            yield from self.control_interphase_delay()
+            hs = USBPacketID.NAK; naks = 0
+            while hs == USBPacketID.NAK:
+                naks += 1
+                if naks > 50: raise RuntimeError("device keeps NAKing the status stage")
+                hs = yield from self.out_transaction(data_pid=USBPacketID.DATA1)
+            if hs != USBPacketID.ACK:
+                raise RuntimeError(f"status stage answered with {hs}")
+            return pkts, False
+
+        @usb_domain_test_case
+        def test_stages(self):
+            for value, wlen in reqs:
+                try:
+                    pkts, stalled = yield from self.read_stage(value, wlen)
+                    results.append((value, wlen, pkts, stalled, None))
+                except Exception as e:          # the device misbehaved on the wire: report and stop
+                    results.append((value, wlen, [], False, f"{type(e).__name__}: {e}"))
+                    return
+
+    suite = unittest.defaultTestLoader.loadTestsFromTestCase(C09EndToEnd)
+    with open(os.devnull, "w") as null:
+        r = unittest.TextTestRunner(stream=null, verbosity=0).run(suite)
+    if (r.errors or r.failures) and not any(x[4] for x in results):
+        results.append((0, 0, [], False, "host-side harness failed: " + (r.errors + r.failures)[0][1][-300:]))
+    return results
+
+
+def e2e_check(tier, rng, bdir, cov):
+    reqs = e2e_requests(tier, rng)
+    coll = coq_coll(E2E)
+    for avoid in (False, True):
+        name = "e2e_device_" + ("distributed" if avoid else "block")
+        res = e2e_run(avoid, reqs)
+        defs = f"Definition co := {coll}.\n"
+        codes = "[" + "; ".join(f"stage_code co 64 {v} {w} {_coq_pkts(pk)} {'true' if st else 'false'}" for v, w, pk, st, err in res if not err) + "]"
+        out = core.coq_eval(bdir, "E2E_C09_" + ("d" if avoid else "b"), tie.HEADER + TIE_IMPORTS, defs, [("codes", codes)])
+        bad = core.parse_nums(out["codes"]) if out["codes"].strip() != "[]" else []
+        cov["correspondence"].append(dict(obligation=name, target="USBDevice + standard control endpoint", traces=len(res), cycles=0,
+                                          describe=f"whole device ({'LUNA_AVOID_BLOCKRAM' if avoid else 'block ROM'} handler) driven over UTMI by "
+                                                   f"LUNA's host-side test helpers: packets of each GET_DESCRIPTOR data stage == data_stage over "
+                                                   f"respond (start_position bookkeeping of StandardRequestHandler included)"))
+        k = 0
+        for v, w, pk, st, err in res:
+            failed = bool(err) or bool(bad[k] if k < len(bad) else 0)
+            if not err: k += 1
+            if failed:
+                return dict(property=PID, obligation=name, target="USBDevice", confirmed_on_pysim=True,
+                            reason=("GET_DESCRIPTOR data stage differs from the specification" if not err else
+                                    "the device misbehaved on the wire during a GET_DESCRIPTOR: " + err),
+                            inputs=[dict(wValue=v, wLength=w, avoid_blockram=avoid, descriptors=E2E)],
+                            outputs=[dict(packets=pk, stalled=st)],
+                            how="full USBDevice simulated with Amaranth's simulator, host side = luna.gateware.test.usb2.USBDeviceTest")
+    return None
+
+
+def correspondence(tier, rng, bdir, cov):
+    for f in (spec_oracles, e2e_check, rom_layout_check):
+        payload = f(tier, rng, bdir, cov)
+        if payload is not None:
+            return payload
+    return None
+
+
+LEVEL_TEXT = (
+    "Machine-checked proof, three layers. (1) Protocol: a host that reads a descriptor in max-packet-size pieces from a responder "
+    "answering each IN transaction as `respond` specifies receives exactly the first min(wLength, len) bytes, every packet <= mps, all "
+    "but the last full, the last short -- a zero-length packet exactly when the total is a multiple of mps below wLength; absent "
+    "descriptors are STALLed without data; all offsets used are < wLength and <= len (C09_data_stage, C09_zlp_rule, C09_absent_stalled, "
+    "C09_offsets_legal; all wLength >= 1, mps >= 1, lengths < 2048). (2) Block-ROM handler: for EVERY well-formed collection (sparse "
+    "types and indexes, lengths 0..) and every packet size the code-shaped model of GetDescriptorHandlerBlock, configured with the Gallina "
+    "re-implementation of generate_rom_content, equals the specification machine cycle for cycle on every legal request history of any "
+    "length (C09_block_handler, simulation relation; layout lemmas C09_rom_walk_present/absent proved for all collections). "
+    "(3) Block-RAM-free handler: the bank-of-ConstantStreamGenerators model (ConstGen.cg_step per descriptor) WITH the candidate fix "
+    "equals the same specification machine for every collection of non-empty descriptors (C09_distributed_handler). (4) The netlists "
+    "regenerated from /repo are proved equal to the models on all traces over explicit request alphabets (block: no environment "
+    "assumption; distributed: under ds_env, which legal histories satisfy), giving netlist = specification corollaries C09_<target>. "
+    "The model is the property-satisfying behaviour: the UNCHANGED /repo FAILS for GetDescriptorHandlerDistributed (zero-length packets: "
+    "descriptor data re-sent when the length is a power of two; otherwise a ZLP-shaped beat held forever, which the packet generator "
+    "turns into endless ZLPs) -- findings/C09-dist-zlp.json/.diff; with the patch applied the check passes. The block-ROM handler holds.")
+LEVEL_NOTE = (
+    "Trusted: Coq kernel + vm_compute, Amaranth elaboration, nir2coq.py/Netlist.v (validated each run against pysim), harness. "
+    "Python generate_rom_content is tied to the Gallina rom_of by a differential test (32/120 collections per run, word for word), not "
+    "by a proof. Netlist ties are per configuration and per explicit input alphabet (tiny collections, packet size 4/8); realistic "
+    "collections (the repo's test collection at mps 64, random collections at mps 8/16/32/64) are covered by model-vs-simulator "
+    "correspondence plus the specification oracles (packet-level and cycle-level) on simulator traces. The connection between the "
+    "handler ports and the wire (IN tokens -> start, ACK -> start_position += mps in StandardRequestHandler, USBDataPacketGenerator) is "
+    "covered by the end-to-end oracle (whole USBDevice driven over UTMI for both handlers), not by a theorem. Latency (bk_lat/ds_lat) is a "
+    "parameter of the specification machine. Not modelled: GetDescriptorHandlerMux and runtime (callable) descriptors; a request with "
+    "start_position = wLength (a host asking for more than it requested) is outside req_legal -- both handlers answer it with a ZLP "
+    "(model mirrors the code; the block netlist tie covers it).")
+TECHNIQUE = ("Rocq proof: list-level induction for the host loop; simulation relations between code-shaped FSM models (block ROM walker incl. "
+             "ROM layout lemmas for a Gallina generate_rom_content; bank of C27 generator models) and a packet-level specification machine; "
+             "certified product reachability of the regenerated netlists over explicit request alphabets; differential ROM-layout test; "
+             "specification oracles on simulator traces and on a whole-device UTMI simulation")
